@@ -383,7 +383,8 @@ PROPS['C19'] = {
     'level': 'model_checking',
     'kani': [
         H(ARB + 'c19_k_arbitrary_str_4', ['arbitrary::arbitrary_str::<4>'], kind='bounded', bound='declared length 1000, 6 symbolic text bytes', features='arbitrary', timeout=1200),
-        H(ARB + 'c19_k_arbitrary_str_2', ['arbitrary::arbitrary_str::<2>'], kind='bounded', bound='declared length 1000, 4 symbolic text bytes', features='arbitrary', timeout=1200),
+        H(ARB + 'c19_k_arbitrary_str_2', ['arbitrary::arbitrary_str::<2>'], kind='bounded', bound='declared length 1000, 4 symbolic text bytes', features='arbitrary', timeout=2400, tier='thorough'),
+        H(ARB + 'c19_k_arbitrary_str_straddling_char', ['arbitrary::arbitrary_str::<2>', 'arbitrary::arbitrary_str::<4>'], kind='bounded', bound='three concrete inputs: a 2-, 3-, 4-byte character straddling the capacity', features='arbitrary', timeout=1200),
         H(ARB + 'c19_k_arbitrary_str_4_short_input', ['arbitrary::arbitrary_str::<4>'], kind='bounded', bound='declared lengths 0, 3, 4, 5 with 0..=4 symbolic text bytes', features='arbitrary', tier='thorough', timeout=3600),
         H(ARB + 'c19_k_arbitrary_bytes', ['arbitrary::arbitrary_bytes::<4|32>'], kind='bounded', bound='inputs <= 16 bytes', features='arbitrary', timeout=1200),
         H(ARB + 'c19_k_arbitrary_byte_array', ['arbitrary::arbitrary_byte_array::<8>'], kind='bounded', bound='inputs <= 16 bytes', features='arbitrary', timeout=1200),
